@@ -32,7 +32,7 @@ CONSTANTS
     HttpOn,          \* explore the HTTP request life cycle (else only the decision tables)
     HttpCfgs,        \* set of [auth |-> BOOLEAN, pprof |-> BOOLEAN]
     HttpMethods, HttpPaths, HttpCreds, HttpWriteDbs,   \* sequences: the request universe
-    TestMethods, TestPatterns                          \* routes the harness registers (AddRoutes)
+    TestMethods, TestPatterns, TestSubtrees            \* routes the harness registers (AddRoutes): exact and subtree ("/s/") patterns
 
 VARIABLES
     adm,   \* the user under test is an admin
@@ -252,9 +252,14 @@ ExactRoutes ==
        [m |-> "GET", pat |-> Base \o <<"debug", "vars">>, kind |-> "vars", bypass |-> TRUE] }
     \cup { [m |-> mm, pat |-> Base \o pp, kind |-> "test", bypass |-> FALSE] : mm \in TestMethods, pp \in TestPatterns }
 IsPreview(p) == IsPrefix(PreviewBase, p) /\ Len(p) >= 3          \* subtree pattern "/kapacitor/v1preview/"
+(* a pattern that ends in "/" names a subtree: "/kapacitor/v1/s/" matches    *)
+(* every path that has it as a string prefix (most services register theirs *)
+(* this way: "/tasks/", "/templates/", ...)                                 *)
+InSubtree(m, p) == m \in TestMethods /\ \E pp \in TestSubtrees : IsPrefix(Base \o pp, p) /\ Len(p) > Len(Base \o pp)
 Match(m, p) ==
     IF \E r \in ExactRoutes : r.m = m /\ r.pat = p
     THEN LET r == CHOOSE r \in ExactRoutes : r.m = m /\ r.pat = p IN [kind |-> r.kind, bypass |-> r.bypass]
+    ELSE IF InSubtree(m, p) THEN [kind |-> "test", bypass |-> FALSE]
     ELSE IF IsPreview(p) THEN [kind |-> "preview", bypass |-> FALSE]
     ELSE [kind |-> "h404", bypass |-> FALSE]                      \* catch-all "/"
 Rewrite(p) == Base \o SubSeq(p, 3, Len(p))
@@ -341,7 +346,7 @@ RefRequired(r) ==
 (* everything about a request that does not depend on the table (computed   *)
 (* once per request of the universe by the trace specification)             *)
 ReqInfo(r) ==
-    LET ok == r.m \in SupportedMethods /\ r.m # "OPTIONS" /\ ~Tricky(r.p)
+    LET ok == r.m \in SupportedMethods /\ r.m # "OPTIONS" /\ Canon(r.p)
         rt == IF ok THEN Match(r.m, FinalPath(r.p)) ELSE [kind |-> "none", bypass |-> FALSE]
         live == ok /\ rt.kind \in {"test", "ping", "vars", "write"} /\ ~(rt.kind = "write" /\ r.db = <<>>)
     IN [r |-> r, live |-> live, required |-> IF live THEN RefRequired(r) ELSE {}]
@@ -446,8 +451,13 @@ ServedIffAuthorised ==
 WriteNeedsDatabaseGrant ==
     (FinishedReq /\ rq.served /\ rq.route.kind = "write") =>
         TRUE \in RefDecisions(IsAdminWho(rq.who), tab, TRUE, DbResource(rq.db), "write")
-(* path tricks are never served, and every authorised resource is under /api *)
-TricksNeverServed == (FinishedReq /\ rq.served) => ~Tricky(rq.orig)
+(* '.', '..' and duplicate slashes are never served (a trailing slash only   *)
+(* reaches subtree routes and is authorised as the clean path); every       *)
+(* authorised resource is under /api                                        *)
+TricksNeverServed ==
+    (FinishedReq /\ rq.served) =>
+        /\ Canon(rq.orig)
+        /\ (Tricky(rq.orig) => InSubtree(rq.m, FinalPath(rq.orig)) /\ Last(rq.orig) = "" /\ ~Tricky(Front(rq.orig)))
 ApiConfined ==
     rq.stage # "idle" => \A k \in DOMAIN rq.checked :
         rq.checked[k][1][1] \in {"api", "database"} /\ (rq.checked[k][1][1] = "database" => rq.route.kind = "write")
